@@ -119,7 +119,22 @@ impl Sk {
         }
     }
 
+    /// statements under `#[cfg(assets_manager_verif)]` (verification hooks) are not part of the code
+    fn is_hook_stmt(st: &Stmt) -> bool {
+        let attrs: &[syn::Attribute] = match st {
+            Stmt::Local(l) => &l.attrs,
+            Stmt::Macro(m) => &m.attrs,
+            Stmt::Expr(e, _) => match e {
+                Expr::Call(c) => &c.attrs, Expr::MethodCall(c) => &c.attrs, Expr::Macro(c) => &c.attrs, Expr::Block(c) => &c.attrs,
+                Expr::If(c) => &c.attrs, Expr::Assign(c) => &c.attrs, Expr::Unsafe(c) => &c.attrs, _ => &[],
+            },
+            Stmt::Item(_) => &[],
+        };
+        crate::find::is_verif_cfg(attrs)
+    }
+
     fn stmt(&mut self, st: &Stmt) {
+        if Self::is_hook_stmt(st) { return; }
         match st {
             Stmt::Local(l) => {
                 if let Some(init) = &l.init {
